@@ -57,7 +57,7 @@ type genParams struct {
 }
 
 const (
-	nInstKinds = 25
+	nInstKinds = 31
 	nTermKinds = 6
 )
 
@@ -81,6 +81,12 @@ func genProgram(r *rng, p genParams) *Prog {
 	}
 	for len(pr.Steps) < p.Steps {
 		switch x := r.intn(100); {
+		case x < 2:
+			if r.chance(1, 2) {
+				add(Step{Op: "alias", K: r.intn(2), A: sel(), Name: name()})
+			} else {
+				add(Step{Op: "typedef", K: r.intn(3), A: sel(), Name: name()})
+			}
 		case x < 6:
 			add(Step{Op: "global", K: r.intn(5), A: sel(), Name: name()})
 		case x < 10:
@@ -144,6 +150,9 @@ var (
 	tF64 = types.Double
 	tP32 = types.NewPointer(types.I32)
 	tP8  = types.NewPointer(types.I8)
+	// {i32, i1}: the result type of cmpxchg on i32.
+	tPair = types.NewStruct(types.I32, types.I1)
+	tVec  = types.NewVector(2, types.I32)
 )
 
 func retType(k int) types.Type {
@@ -246,6 +255,13 @@ func (mc *machine) konst(t types.Type, sel int) value.Value {
 		return constant.NewNull(tP32)
 	case t.Equal(tP8):
 		return constant.NewNull(tP8)
+	case t.Equal(tVec):
+		if sel%2 == 0 {
+			return constant.NewUndef(tVec)
+		}
+		return constant.NewVector(tVec, constant.NewInt(tI32, int64(sel%5)), constant.NewInt(tI32, 9))
+	case t.Equal(tPair):
+		return constant.NewUndef(tPair)
 	}
 	return constant.NewUndef(t)
 }
@@ -395,6 +411,30 @@ func (mc *machine) newInst(f *mfunc, k, c, d int) ir.Instruction {
 			in = ir.NewLoad(tI32, g)
 			mc.use(in, g)
 		}
+	case 25:
+		p, c1, n1 := mc.pick(f, tP32, c), mc.pick(f, tI32, d), mc.pick(f, tI32, c+d)
+		in = ir.NewCmpXchg(p, c1, n1, enum.AtomicOrderingSequentiallyConsistent, enum.AtomicOrderingMonotonic)
+		mc.use(in, p, c1, n1)
+	case 26:
+		p, x := mc.pick(f, tP32, c), mc.pick(f, tI32, d)
+		in = ir.NewAtomicRMW(enum.AtomicOpAdd, p, x, enum.AtomicOrderingAcquireRelease)
+		mc.use(in, p, x)
+	case 27:
+		x := mc.pick(f, tPair, c)
+		in = ir.NewExtractValue(x, uint64(d%2))
+		mc.use(in, x)
+	case 28:
+		v, e, i := mc.pick(f, tVec, c), mc.pick(f, tI32, d), mc.pick(f, tI32, c+1)
+		in = ir.NewInsertElement(v, e, i)
+		mc.use(in, v, e, i)
+	case 29:
+		v, i := mc.pick(f, tVec, c), mc.pick(f, tI32, d)
+		in = ir.NewExtractElement(v, i)
+		mc.use(in, v, i)
+	case 30:
+		x := mc.pick(f, tI32, c)
+		in = ir.NewInstFreeze(x)
+		mc.use(in, x)
 	}
 	return in
 }
@@ -432,6 +472,7 @@ func (mc *machine) exec1(s Step) bool {
 		switch s.K % 6 {
 		case 0:
 			g = mc.m.NewGlobal(name, tI32)
+			g.Linkage = enum.LinkageExternal
 		case 1:
 			g = mc.m.NewGlobalDef(name, constant.NewInt(tI32, int64(s.A%50)))
 		case 2:
@@ -463,6 +504,42 @@ func (mc *machine) exec1(s Step) bool {
 			mc.probes["unnamed global appended after a print"]++
 		}
 		mc.globals = append(mc.globals, g)
+		return true
+	case "alias":
+		name := mc.uniq(mc.gnames, s.Name)
+		if s.K%2 == 0 {
+			if len(mc.globals) == 0 {
+				return false
+			}
+			mc.m.NewAlias(name, mc.globals[s.A%len(mc.globals)])
+		} else {
+			if len(mc.funcs) == 0 {
+				return false
+			}
+			mc.m.NewIFunc(name, mc.funcs[s.A%len(mc.funcs)].f)
+		}
+		if mc.printedOnce && name == "" {
+			mc.probes["unnamed alias/ifunc appended after a print"]++
+		}
+		return true
+	case "typedef":
+		name := fmt.Sprintf("ty%d", mc.stepNo)
+		var t types.Type
+		switch s.K % 3 {
+		case 0:
+			t = types.NewStruct(types.I32, types.NewPointer(types.I8))
+		case 1:
+			t = types.NewArray(uint64(1+s.A%4), types.I64)
+		default:
+			st := types.NewStruct()
+			st.Opaque = true
+			t = st
+		}
+		td := mc.m.NewTypeDef(name, t)
+		if s.K%3 != 2 {
+			g := mc.m.NewGlobalDef(mc.uniq(mc.gnames, s.Name), constant.NewZeroInitializer(td))
+			mc.globals = append(mc.globals, g)
+		}
 		return true
 	case "func":
 		name := mc.uniq(mc.gnames, s.Name)
